@@ -93,6 +93,11 @@ class Ctx:
             fn(rule, *a, **kw)
         except A.AnchorLost as e:
             rule.lost(e.what)
+        except Exception as e:  # a reshaped tree must fail closed, not crash the check
+            import traceback
+
+            tb = traceback.extract_tb(e.__traceback__)[-1]
+            rule.lost("unexpected shape (%s: %s at %s:%d)" % (type(e).__name__, e, tb.filename.split("/")[-1], tb.lineno))
 
     def finish(self):
         known = load_known()
@@ -171,12 +176,13 @@ class Ctx:
             "wall_s": round(wall, 3),
             "violations": nviol,
         }
-        evdir = os.path.join(VERIF, "evidence")
+        # evidence is only ever written for /repo itself; scratch copies (FV_REPO) go elsewhere
+        evdir = os.path.join(VERIF, "evidence") if os.path.realpath(A.REPO) == "/repo" else os.path.join(VERIF, "out", "scratch-evidence")
         os.makedirs(evdir, exist_ok=True)
         with open(os.path.join(evdir, "%s.json" % self.pid), "w") as f:
             json.dump(ev, f, indent=1)
         if new:
-            outdir = os.path.join(VERIF, "out", self.pid)
+            outdir = os.path.join(VERIF, "out", self.pid if os.path.realpath(A.REPO) == "/repo" else "scratch-" + self.pid)
             os.makedirs(outdir, exist_ok=True)
             path = os.path.join(outdir, "violation.json")
             with open(path, "w") as f:
